@@ -135,9 +135,12 @@ ChooseBranch(brs, v, names, o) ==
 \* named = TRUE: what a reader with return_named_type=True returns - (full name, value) pairs at union positions whose branch is a named type
 \* mode: [named |-> BOOLEAN, json |-> BOOLEAN]; json = TRUE: numbers as the JSON text carries them (no binary32 rounding, ints stay ints)
 RECURSIVE NormM(_, _, _, _, _)
-NormN(t, v, names, o, named) == NormM(t, v, names, o, [named |-> named, json |-> FALSE])
-Norm(t, v, names, o) == NormM(t, v, names, o, [named |-> FALSE, json |-> FALSE])
-NormJ(t, v, names, o) == NormM(t, v, names, o, [named |-> FALSE, json |-> TRUE])
+NormN(t, v, names, o, named) == NormM(t, v, names, o, [named |-> named, json |-> FALSE, override |-> FALSE])
+\* return_named_type together with return_named_type_override: the pair only where the union has more than one named type
+NormNO(t, v, names, o) == NormM(t, v, names, o, [named |-> TRUE, json |-> FALSE, override |-> TRUE])
+Norm(t, v, names, o) == NormM(t, v, names, o, [named |-> FALSE, json |-> FALSE, override |-> FALSE])
+NormJ(t, v, names, o) == NormM(t, v, names, o, [named |-> FALSE, json |-> TRUE, override |-> FALSE])
+NamedBranches(t, names) == Cardinality({ i \in 1..Len(t.br) : IsNamedKind(Deref(t.br[i], names).k) })
 NormSeq(t, xs, names, o, named) ==
   LET rs == MapSeq(LAMBDA x : NormM(t, x, names, o, named), xs) IN
   IF \A i \in 1..Len(xs) : rs[i].ok THEN [ok |-> TRUE, vs |-> MapSeq(LAMBDA r : r.v, rs)] ELSE [ok |-> FALSE]
@@ -169,5 +172,5 @@ NormM(t0, v0, names, o, named) ==
                         IF c.st # "ok" THEN bad
                         ELSE LET r == NormM(t.br[c.i], c.v, names, o, named)
                                  b == Deref(t.br[c.i], names)
-                             IN IF r.ok /\ named.named /\ IsNamedKind(b.k) THEN [ok |-> TRUE, v |-> VTuple(<< VStr(b.name), r.v >>)] ELSE r
+                             IN IF r.ok /\ named.named /\ IsNamedKind(b.k) /\ ~(named.override /\ NamedBranches(t, names) = 1) THEN [ok |-> TRUE, v |-> VTuple(<< VStr(b.name), r.v >>)] ELSE r
 =============================================================================
